@@ -43,7 +43,17 @@ ARG_POOL = [-1, -2, 0, 1, 1.0, True, "a", "b", ["t", 1], ["t", 2], [], None, 2**
 KW_NAMES = ["x", "y", "z", "key", "hashfunc", "instance", "name", "obj"]
 
 
+# mutable argument objects the simulated caller keeps between calls (per run:
+# emptied by St.__init__), so that the SAME list object is passed again after
+# having been changed in place
+HELD = {}
+
+
 def decode_arg(a):
+    if isinstance(a, dict) and "held" in a:
+        obj = HELD.setdefault(a["held"], [])
+        obj[:] = [decode_arg(x) for x in a["items"]]
+        return obj
     if isinstance(a, dict) and "dict" in a:
         # a dictionary as a keyword VALUE, built in the order given
         return {k: decode_arg(v) for k, v in a["dict"]}
@@ -177,6 +187,7 @@ class St:
         self.stats = collections.Counter()
         self.mutations = 0
         self.gens = {}  # task label -> suspended get_all generator and what it owes
+        HELD.clear()
 
     def lab(self, obj):
         if obj is None:
@@ -254,6 +265,7 @@ class C17(engine.Property):
         "no-reference-held-construct-live-key",
         "keyword-value-equal-but-other-type",
         "dict-valued-keyword-in-other-insertion-order",
+        "same-mutable-argument-object-passed-again-after-a-change",
         "falsy-callable-object-as-hash-function",
         "order-sensitive-hash-function-with-several-keywords",
         "value-equal-instances-under-different-keys",
@@ -281,6 +293,7 @@ class C17(engine.Property):
             "p_during": rng.choice([0.0, 0.0, 0.15, 0.4]),
             "p_unkeyable": rng.choice([0.0, 0.0, 0.05, 0.1]),
             "p_init_fails": rng.choice([0.0, 0.0, 0.08, 0.2]),
+            "p_held": rng.choice([0.0, 0.0, 0.15, 0.3]),
             # does the caller keep the objects it is given?  (a keyed registry
             # used as `Settings("db").values[...] = ...` keeps none)
             "hold_refs": rng.random() < 0.65,
@@ -350,6 +363,11 @@ class C17(engine.Property):
             else:
                 return args, [["x", {"unhashable": "set"}]]
         kwargs = []
+        if allow_bad and cls not in ("D", "E", "K", "O") and rng.random() < cfg.get("p_held", 0.0):
+            # a list the caller keeps, edits in place and passes again
+            st.stats["probe:same-mutable-argument-object-passed-again-after-a-change"] += 1
+            items = [rng.randrange(3) for _ in range(rng.randint(0, 2))]
+            return args[:1], [["opts", {"held": rng.choice(["h0", "h0", "h1"]), "items": items}]]
         if rng.random() < cfg["p_kwargs"]:
             names = rng.sample(KW_NAMES, rng.randint(1, 3))
             kwargs = [[nm, ARG_POOL[rng.choice(cfg["pool"])]] for nm in names]
@@ -379,7 +397,11 @@ class C17(engine.Property):
                 op = {"op": kind, "cls": cls, "args": args, "kwargs": kwargs}
                 if kind == "construct":
                     op["new"] = st.namer.new("i")
-                    if rng.random() < cfg.get("p_during", 0.0):
+                    if "held" in json.dumps(kwargs):
+                        # (no user code inside this construction: the harness
+                        # would be the one to change the held list in mid-call)
+                        pass
+                    elif rng.random() < cfg.get("p_during", 0.0):
                         op["during"] = self._during(rng, cfg, st, op)
                     elif rng.random() < cfg.get("p_init_fails", 0.0):
                         op["init_fails"] = True
